@@ -182,3 +182,127 @@ def _widths(repo):
         raise KeyError("saturating line/column counters in Tokenizer::advance")
     lean = "\n".join(f"def c14Bits_{k} : Nat := {v}" for k, v in w.items())
     return w, lean
+
+
+# ---------------------------------------------------------------------------------------------------
+# parser.rs: every `Spanned::new(node, span)` — which parse function builds which AST node, where the
+# START of the span comes from (current_span() at entry = first token of the construct; the span of a
+# token just consumed; a parameter; last_span() = the token in FRONT of the construct) and whether the
+# end is expanded to the last token consumed (`expand_span`)
+def _split_args(text):
+    out, depth, cur = [], 0, ""
+    for ch in text:
+        if ch in "([{":
+            depth += 1
+        elif ch in ")]}":
+            depth -= 1
+        if ch == "," and depth == 0:
+            out.append(cur); cur = ""
+        else:
+            cur += ch
+    if cur.strip():
+        out.append(cur)
+    return [a.strip() for a in out]
+
+
+def _enclosing(src, pos):
+    """name of the innermost `fn` / `macro_rules!` whose text contains pos, and the offset of its body"""
+    best = None
+    for m in re.finditer(r"(?:fn\s+(\w+)\s*(?:<[^>]*>)?\s*\(|(?m:^)macro_rules!\s*(\w+)\s*\{)", src[:pos]):
+        best = (m.group(1) or (m.group(2) + "!"), m.start())
+    return best
+
+
+def parser_spans(repo):
+    src = _strip_comments(read(repo, "minijinja/src/compiler/parser.rs"))
+    rows = []
+    for m in re.finditer(r"Spanned::new\(", src):
+        args = _split_args(_call_args(src, m.end() - 1))
+        if len(args) != 2:
+            raise KeyError("Spanned::new arity")
+        node, span = args
+        cm = re.search(r"ast::(\w+)", node)
+        ctor = cm.group(1) if cm else {"$expr": "Stmt", "macro_decl": "Macro"}.get(node, "IfCond" if "parse_if_cond" in node else re.sub(r"\W+", "", node)[:20])
+        fn, fstart = _enclosing(src, m.start())
+        em = re.match(r"self\.stream\.expand_span\((\w+)\)$", span)
+        var = em.group(1) if em else span
+        end = "expand" if em else "own"
+        body = src[fstart:m.start()]
+        # the last definition of the variable in front of the site
+        defs = []
+        for d in re.finditer(r"(?:let\s+(?:mut\s+)?)?\b%s\s*=\s*self\.stream\.(current_span|last_span)\(\)" % re.escape(var), body):
+            defs.append((d.start(), d.group(1)))
+        for d in re.finditer(r"let\s*\(([^)]*)\)\s*=\s*(?:ok!\()?\s*(expect_token!|self\.parse_filter_test_name)", body):
+            if re.search(r"\b%s\b" % re.escape(var), d.group(1)):
+                defs.append((d.start(), "token" if d.group(2) == "expect_token!" else "name_token"))
+        for d in re.finditer(r"Some\(\((?:[^()]|\([^()]*\))*,\s*%s\)\)" % re.escape(var), body):
+            defs.append((d.start(), "token"))
+        for d in re.finditer(r"\b(?:mut\s+)?%s:\s*Span\b" % re.escape(var), body):
+            defs.append((d.start(), "param"))
+        for d in re.finditer(r"\b%s\s*=\s*(\w+);" % re.escape(var), body):
+            defs.append((d.start(), "reassigned:" + d.group(1)))
+        if var.startswith("$") or fn == "parse_stmt_unprotected":
+            defs.append((0, "token"))
+        # only definitions whose block is still open at the site are in scope
+        def in_scope(p):
+            d, low = 0, 0
+            for ch in body[p:]:
+                if ch == "{":
+                    d += 1
+                elif ch == "}":
+                    d -= 1
+                    low = min(low, d)
+            return low >= 0
+        defs = [x for x in defs if in_scope(x[0])]
+        if not defs:
+            raise KeyError(f"start of span `{var}` in {fn}")
+        defs.sort()
+        start = "+".join(dict.fromkeys(x for _, x in defs))
+        rows.append((fn, ctor, start, end))
+    if len(rows) < 25:
+        raise KeyError("Spanned::new sites in parser.rs")
+    return rows
+
+
+@item("C14_PARSER_SPANS")
+def _parser_spans(repo):
+    rows = parser_spans(repo)
+    lean = ("def c14ParserSpans : List (String × String × String × String) := [\n  "
+            + ",\n  ".join("(" + ", ".join(lean_str(x) for x in r) + ")" for r in rows) + "]")
+    return [list(r) for r in rows], lean
+
+
+# ---------------------------------------------------------------------------------------------------
+# codegen.rs: per function of `impl CodeGenerator`, in source order, every call that decides a location:
+# add / add_with_span / the location-less `self.instructions.add` (with the instructions named in the call),
+# set_line / set_line_from_span / push_span (with their argument) and pop_span
+def codegen_arms(repo):
+    src = _strip_comments(read(repo, "minijinja/src/compiler/codegen.rs"))
+    src = src[src.index("impl<'source> CodeGenerator<'source>"):]
+    rows = []
+    pat = re.compile(r"(?:self|sub)\.(instructions\.add_with_span|instructions\.add_with_line|instructions\.add|add_with_span|add|set_line_from_span|set_line|push_span|pop_span)\(")
+    for m in pat.finditer(src):
+        fn, _ = _enclosing(src, m.start())
+        args = _call_args(src, m.end() - 1)
+        what = m.group(1)
+        if what in ("add", "add_with_span", "instructions.add", "instructions.add_with_span", "instructions.add_with_line"):
+            names = re.findall(r"Instruction::(\w+)", args)
+            sp = ""
+            if "with_span" in what or "with_line" in what:
+                sp = re.sub(r"\s+", "", _split_args(args)[-1])
+            arg = "|".join(names) if names else re.sub(r"\s+", "", args)[:30]
+            arg = arg + ("@" + sp if sp else "")
+        else:
+            arg = re.sub(r"\s+", "", args)
+        rows.append((fn, what, arg))
+    if len(rows) < 150:
+        raise KeyError("location calls in codegen.rs")
+    return rows
+
+
+@item("C14_CODEGEN_ARMS")
+def _codegen_arms(repo):
+    rows = codegen_arms(repo)
+    lean = ("def c14CodegenArms : List (String × String × String) := [\n  "
+            + ",\n  ".join("(" + ", ".join(lean_str(x) for x in r) + ")" for r in rows) + "]")
+    return [list(r) for r in rows], lean
